@@ -110,6 +110,17 @@ def gen_reps(rng, nrep=None):
 
 def gen_case(ctx, fmt=None):
     rng = ctx.rng
+    if fmt is None and rng.random() < 0.12:
+        step = rng.choice([1, 1, 2, 5])
+        start = rng.randint(1, 40)
+        n = rng.randint(7, 14)
+        regular = rng.random() < 0.7
+        cfgs = [start + i * step for i in range(n)]
+        if not regular:
+            cfgs = sorted(set(cfgs[:3] + [c + 1 for c in cfgs[3:]] + [cfgs[-1] + step + 3]))
+        return {'fmt': 'hadrons', 'seed': rng.getrandbits(24), 'cfgs': cfgs, 'step': step, 'regular': regular, 'T': rng.choice([2, 3, 5]),
+                'entry': rng.randrange(4), 'how': rng.choice(['meson', 'gammas', 'gammas', 'attrs', 'int']), 'part': rng.choice(['real', 'imag', 'complex']),
+                'sel': rng.choice(['all', 'all', 'range', 'list']), 'shuffle': rng.getrandbits(20)}
     fmt = fmt or rng.choice(['rwms14', 'rwms16', 'rwms20', 'qtop_openqcd', 'energy', 'qtop_sfqcd', 'ms5_xsf', 'sfcf_c', 'sfcf_o', 'sfcf_a'])
     case = {'fmt': fmt, 'reps': {str(k): v for k, v in gen_reps(rng).items()}, 'shuffle': rng.getrandbits(20)}
     reps = case['reps']
@@ -136,6 +147,7 @@ def gen_case(ctx, fmt=None):
                                                           ['f_V', 'squark lquark', 0, 0, False]],
                      'want': rng.choice([0, 1, 2, 3, 4])})
         case['im'] = (case['want'] + case['T']) % 3 == 0
+        case['multi'] = (case['want'] * 3 + case['T']) % 4 == 2
         case['ens_name'] = 'ens7' if (case['want'] + case['T']) % 4 == 1 else None
         if fmt == 'sfcf_a':
             # the appended-layout reader only finds the FIRST [correlator] block of a file (it raises
@@ -356,6 +368,17 @@ def read_and_expect(ctx, case, root, info):
             if case.get('ens_name'):
                 k2['ens_name'] = case['ens_name']
                 ens = case['ens_name']
+            if case.get('multi'):
+                # several correlators in one call, requested in another order than they are stored in the files
+                ret = sfin.read_sfcf_multi(os.path.join(root, 'data'), 'data', ['f_1', 'f_A'], quarks_list=['lquark lquark'], corr_type_list=['bb', 'bi'],
+                                           noffset_list=[0], wf_list=[0], wf2_list=[0], version=ver, silent=True, **k2)
+                for nm_, bb_ in (('f_1', True), ('f_A', False)):
+                    res = ret[nm_]['lquark lquark']['0']['0']['0']
+                    e = info['exp'][(nm_, 0, 0)]
+                    for t in range(1 if bb_ else case['T']):
+                        exp = {'%s|r%d' % (ens, r): {c: e[r][c][t][part] for c in want[r]} for r in rs}
+                        out.append(('sfcf multi %s %s t=%d%s' % (lay, nm_, t, ' im' if part else ''), tab(res[t]), exp))
+                return out
             res = sfin.read_sfcf(os.path.join(root, 'data'), 'data', nm, quarks=quarks, wf=wf, wf2=wf2, version=ver, corr_type='bb' if bb else 'bi', **k2)
             e = info['exp'][(nm, wf, wf2)]
             T = 1 if bb else case['T']
@@ -365,8 +388,90 @@ def read_and_expect(ctx, case, root, info):
     return out
 
 
+
+# ---------------------------------------------------------------------------------------------
+# Hadrons hdf5 files: read_hd5 / read_meson_hd5 (one file per configuration, one group entry per gamma pair)
+# ---------------------------------------------------------------------------------------------
+HAD_GAMMAS = [('Gamma5', 'Gamma5'), ('GammaX', 'Gamma5'), ('Gamma5', 'GammaX'), ('GammaT', 'GammaTGamma5')]
+
+
+def hadrons_value(cfg, entry, t):
+    # offsets chosen so that no entry is (nearly) zero: samples are compared relative to their size
+    return complex(0.5137 + 0.0113 * cfg + 0.1071 * entry + 0.0031 * t * (entry + 1), 0.2137 + 0.0211 * cfg * (t + 1) + 0.0537 * entry)
+
+
+def check_hadrons(ctx, case):
+    import h5py
+    import pyerrors.input.hadrons as had
+    probs = []
+    cfgs = list(case['cfgs'])
+    T = case['T']
+    root = tempfile.mkdtemp(prefix='c17h_', dir=os.environ.get('VERIF_TMP', '/dev/shm' if os.path.isdir('/dev/shm') else None))
+    try:
+        order = list(range(len(HAD_GAMMAS)))
+        _random.Random(case['seed']).shuffle(order)          # the order of the entries inside the file is not guaranteed
+        for c in cfgs:
+            with h5py.File(os.path.join(root, 'data.%d.h5' % c), 'w') as f:
+                g = f.create_group('meson')
+                for e in order:
+                    sub = g.create_group('meson_%d' % e)
+                    sub.attrs['gamma_snk'] = np.array([HAD_GAMMAS[e][0].encode()])
+                    sub.attrs['gamma_src'] = np.array([HAD_GAMMAS[e][1].encode()])
+                    arr = np.zeros(T, dtype=[('re', '<f8'), ('im', '<f8')])
+                    for t in range(T):
+                        v = hadrons_value(c, e, t)
+                        arr[t] = (v.real, v.imag)
+                    sub.create_dataset('corr', data=arr)
+        e = case['entry']
+        want = cfgs
+        kw = {}
+        if case['sel'] == 'range' and case['regular']:
+            want = cfgs[1:-1]
+            kw['idl'] = range(want[0], want[-1] + 1, case['step'])
+        elif case['sel'] == 'list':
+            want = sorted(_random.Random(case['seed'] + 1).sample(cfgs, max(5, len(cfgs) - 3)))
+            kw['idl'] = list(want)
+        elif not case['regular']:
+            kw['idl'] = list(cfgs)              # unevenly spaced files need an explicit idl (documented)
+        how = case['how']
+        with warnings.catch_warnings(), quiet(), Shuffled(case['shuffle']):
+            warnings.simplefilter('ignore')
+            try:
+                if how == 'meson':
+                    res = had.read_meson_hd5(root, 'data', 'ensH', meson='meson_%d' % e, **kw)
+                    part = 'real'
+                elif how == 'gammas':
+                    res = had.read_meson_hd5(root, 'data', 'ensH', gammas=HAD_GAMMAS[e], **kw)
+                    part = 'real'
+                else:
+                    part = case['part']
+                    attrs = e if how == 'int' else {'gamma_snk': HAD_GAMMAS[e][0], 'gamma_src': HAD_GAMMAS[e][1]}
+                    res = had.read_hd5(os.path.join(root, 'data'), 'ensH', 'meson', attrs=attrs, part=part, **kw)
+            except Exception as ex:
+                return [('violation', 'reader-exception:hadrons', '%s: %s' % (type(ex).__name__, str(ex)[:200]))]
+        ctx.count('hadrons:%s:%s' % (how, case['sel']))
+        if res.T != T:
+            return [('violation', 'stored-numbers:hadrons', 'T %d vs %d' % (res.T, T))]
+        for t in range(T):
+            item = res.content[t][0]
+            for comp, sel_ in (('real', lambda z: z.real), ('imag', lambda z: z.imag)):
+                if part != 'complex' and part != comp:
+                    continue
+                o = getattr(item, comp) if part == 'complex' else item
+                exp = {'ensH': {c: sel_(hadrons_value(c, e, t)) for c in want}}
+                d = cmp_tab(tab(o), exp, 'hadrons %s entry %d t=%d %s' % (how, e, t, comp))
+                if d:
+                    probs.append(('violation', 'stored-numbers:hadrons', d[:2]))
+                    return probs
+    finally:
+        shutil.rmtree(root, ignore_errors=True)
+    return probs
+
+
 def check_case(ctx, case):
     probs = []
+    if case['fmt'] == 'hadrons':
+        return check_hadrons(ctx, case)
     if case['fmt'] == 'names':
         return check_names(ctx, case)
     if case['fmt'] == 'select':
